@@ -509,6 +509,28 @@ def main(tier, seed):
         c.sweep_commands(r, tier)
     finally:
         c.close()
+    if tier == "thorough":
+        # the same sweeps once more against the SAME tree built like a plain `cargo build` (overflow checks and debug assertions
+        # on): an input that only panics there is a crash of the default build (the arithmetic sites are proved for release
+        # arithmetic; this pass is what would show a site the inventory does not list)
+        import server as _server
+        normal = _server.SERVER_BIN
+        _server.SERVER_BIN = build_server(checked=True)
+        n0 = len(c.failures)
+        ev0 = rep.evaluations
+        c2 = C06(rep)
+        try:
+            c2.site_grid(Rng(seed))
+            c2.sweep_frames(Rng(seed + 1), "quick")
+            c2.sweep_sequences(Rng(seed + 2), "quick")
+            c2.sweep_commands(Rng(seed + 3), "quick")
+        finally:
+            c2.close()
+            _server.SERVER_BIN = normal
+        for det in c2.failures:
+            det["build"] = "overflow-checks on (plain cargo build)"
+        c.failures += c2.failures
+        rep.count("checked-arithmetic-pass.evaluations=%d.failures=%d" % (rep.evaluations - ev0, len(c2.failures)))
     rep.traces_validated = rep.evaluations
     findings = [f for f in load_known_findings()["open"] if f["property"] == PID]
     new_fail, seen = [], {}
